@@ -455,9 +455,18 @@ func runC15(ctx *core.Ctx) {
 					} else {
 						b.WriteString("<p>paragraph <b>bold</b> &amp; text</p>\n")
 					}
+					if b.Len()%97 == 0 {
+						// removed elements whose bodies contain '>' and '<', so that any re-chunking of stdin can cut inside
+						b.WriteString("<script>if (a > b && b < c) { x = \"<b>bold</b>\"; } // " + gen.RandIdent(r, 30) + "</script><style>p > b { color: red } /* " + gen.RandIdent(r, 30) + " */</style>")
+					}
 				}
 				b.WriteString("<p>zqtailmarker</p>")
 				in = b.String()
+			}
+			if cs.Index >= 8 && r.Intn(10) == 0 {
+				// transfer-encoding artefacts are content like any other: soft line breaks, encoded words
+				pos := r.Intn(len(in) + 1)
+				in = in[:pos] + gen.Pick(r, []string{"=\r\n", "a=\r\nb", "<a href=\r\n\"http://example.org/\">x</a>", "=3D", "=\n", "=?utf-8?q?x?=", "text=\r\n<b>b</b>"}) + in[pos:]
 			}
 			if cs.Index >= 8 && r.Intn(8) == 0 {
 				// the end of stdin inside something the sanitiser removes, with and without a final line break
